@@ -2720,8 +2720,12 @@ where
     /// Packets restored while the protocol version was still undetermined could not be
     /// checked against it. Once the version is adopted, entries of the other version are
     /// dropped together with their packet IDs, exactly as restore_packets() skips them on a
-    /// connection whose version is known.
-    fn drop_stored_packets_of_other_version(&mut self) {
+    /// connection whose version is known. The IDs were in use until now, so their release is
+    /// announced.
+    fn drop_stored_packets_of_other_version(
+        &mut self,
+        events: &mut Vec<GenericEvent<PacketIdType>>,
+    ) {
         let version = self.protocol_version;
         let mut dropped = Vec::new();
         self.store.for_each(|packet| {
@@ -2745,6 +2749,7 @@ where
             self.pid_pubcomp.remove(&packet_id);
             if self.pid_man.is_used_id(packet_id) {
                 self.pid_man.release_id(packet_id);
+                events.push(GenericEvent::NotifyPacketIdReleased(packet_id));
             }
         }
     }
@@ -2944,12 +2949,12 @@ where
                             // Protocol Version
                             4 => {
                                 self.protocol_version = Version::V3_1_1;
-                                self.drop_stored_packets_of_other_version();
+                                self.drop_stored_packets_of_other_version(&mut events);
                                 events.extend(self.process_recv_v3_1_1_connect(raw_packet));
                             }
                             5 => {
                                 self.protocol_version = Version::V5_0;
-                                self.drop_stored_packets_of_other_version();
+                                self.drop_stored_packets_of_other_version(&mut events);
                                 events.extend(self.process_recv_v5_0_connect(raw_packet));
                             }
                             _ => {
